@@ -112,6 +112,8 @@ struct Xfer {
     down: usize,
     pad: Option<u8>,
     content_length: bool,
+    /// the h2c backend sends the response as PADDED DATA: (content octets per frame, padding)
+    down_pad: Option<(usize, u8)>,
 }
 
 #[derive(Clone, Debug)]
@@ -122,6 +124,9 @@ struct ConnPlan {
     xfers: Vec<Xfer>,
     max_inflight: usize,
     up_quantum: usize,
+    /// heavy-padding class: every upload frame carries `up_quantum` content octets and the
+    /// transfer's padding, whatever the body size (the frame count is bounded by the plan)
+    padded_class: bool,
 }
 
 #[derive(Clone, Debug)]
@@ -239,8 +244,81 @@ fn gen_size(rng: &mut Rng, budget: &mut usize) -> usize {
     s
 }
 
+
+/// Every 6th cell is a *heavy padding* cell: PADDED DATA with small content and 200..255 octets of
+/// padding, enough frames on ONE connection for the padding alone to exceed sozu's advertised
+/// connection window several times (RFC 9113 6.1/6.9.1: pad length octet and padding are
+/// flow-controlled, so sozu has to give them back too). Connection 0 uploads padded DATA through
+/// the front; with an h2c backend connection 1 downloads a body the backend sends as PADDED DATA
+/// (sozu is then the receiver on its backend connection).
+fn gen_padded_cell(seed: u64, case: u64, force_back: Option<bool>) -> CellPlan {
+    let mut rng = Rng::for_case(seed, 1414, case);
+    let back_h2c = force_back.unwrap_or((case / PADDED_CELL_EVERY) % 3 != 2);
+    // sozu's own connection window: 65 535 (few frames needed) or the 1 MiB default
+    let own_conn_window = if rng.chance(3, 4) { Some(65_535u32) } else { None };
+    let window = own_conn_window.unwrap_or(1 << 20) as usize;
+    let plain_peer = |settings: Vec<(u16, u32)>| PeerPlan {
+        settings,
+        grant: Grant::Burst,
+        changes: Vec::new(),
+        io: IoProgram::fast(),
+        quiet_ms: 3,
+        literal_hpack: false,
+    };
+    let mut next_id = 1u64;
+    let mut conns = Vec::new();
+    let n_conns = if back_h2c { 2 } else { 1 };
+    for ci in 0..n_conns {
+        let download = ci == 1;
+        let pad = rng.range(200, 255) as u8;
+        let content = if window > 65_535 { *rng.pick(&[9usize, 100]) } else { *rng.pick(&[1usize, 9, 100, 1000]) };
+        // padding volume = times x window
+        let times_x10 = if window > 65_535 { rng.range(13, 16) } else { rng.range(30, 50) } as usize;
+        let frames = (window * times_x10 / 10).div_ceil(pad as usize + 1);
+        let n_streams = rng.urange(2, 5);
+        let mut xfers = Vec::new();
+        for k in 0..n_streams {
+            let f = frames / n_streams + usize::from(k == 0) * (frames % n_streams);
+            let body = f * content;
+            xfers.push(Xfer {
+                id: next_id,
+                up: if download { 0 } else { body },
+                down: if download { body } else { *rng.pick(&[0usize, 1, 9]) },
+                pad: if download { None } else { Some(pad) },
+                content_length: rng.bool(),
+                down_pad: download.then_some((content, pad)),
+            });
+            next_id += 1;
+        }
+        conns.push(ConnPlan {
+            front_h1: false,
+            front: plain_peer(vec![(h2::SET_ENABLE_PUSH, 0), (h2::SET_INITIAL_WINDOW_SIZE, 1 << 20)]),
+            xfers,
+            max_inflight: rng.urange(1, 2),
+            up_quantum: content,
+            padded_class: true,
+        });
+    }
+    CellPlan {
+        case,
+        back_h2c,
+        back: vec![plain_peer(vec![(h2::SET_INITIAL_WINDOW_SIZE, 1 << 20), (h2::SET_MAX_CONCURRENT_STREAMS, 100)])],
+        h1_io: IoProgram::fast(),
+        conns,
+        front_sndbuf: None,
+        back_sndbuf: None,
+        own_conn_window,
+        buffer_size: 16_393,
+    }
+}
+
+const PADDED_CELL_EVERY: u64 = 6;
+
 /// `force_back` / `force_front`: restrict the pairing (options `backend=h1|h2c`, `front=h1|h2`)
 fn gen_cell(seed: u64, case: u64, thorough: bool, force_back: Option<bool>, force_front_h1: Option<bool>) -> CellPlan {
+    if case % PADDED_CELL_EVERY == PADDED_CELL_EVERY - 1 && force_front_h1 != Some(true) {
+        return gen_padded_cell(seed, case, force_back);
+    }
     let mut rng = Rng::for_case(seed, 14, case);
     let drawn = rng.chance(3, 5);
     let back_h2c = force_back.unwrap_or(drawn);
@@ -272,6 +350,7 @@ fn gen_cell(seed: u64, case: u64, thorough: bool, force_back: Option<bool>, forc
                 down,
                 pad: if rng.chance(1, 6) { Some(rng.range(0, 32) as u8) } else { None },
                 content_length: rng.bool(),
+                down_pad: None,
             });
             next_id += 1;
         }
@@ -284,6 +363,7 @@ fn gen_cell(seed: u64, case: u64, thorough: bool, force_back: Option<bool>, forc
             front: gen_peer(&mut rng, false, down_total),
             max_inflight: if rng.chance(2, 3) { n } else { rng.urange(1, n) },
             up_quantum: *rng.pick(&[1usize << 20, 16_384, 16_385, 1000, 9]),
+            padded_class: false,
             xfers,
         });
     }
@@ -341,8 +421,8 @@ fn plan_json(p: &CellPlan) -> Value {
         "conns": p.conns.iter().map(|c| json!({
             "front": if c.front_h1 { "h1" } else { "h2" },
             "front_peer": peer_json(&c.front),
-            "max_inflight": c.max_inflight, "up_quantum": c.up_quantum,
-            "xfers": c.xfers.iter().map(|x| json!([x.id, x.up, x.down, x.pad, x.content_length])).collect::<Vec<_>>(),
+            "max_inflight": c.max_inflight, "up_quantum": c.up_quantum, "padded_class": c.padded_class,
+            "xfers": c.xfers.iter().map(|x| json!([x.id, x.up, x.down, x.pad, x.content_length, x.down_pad])).collect::<Vec<_>>(),
         })).collect::<Vec<_>>(),
     })
 }
@@ -641,6 +721,12 @@ struct BackProg {
     send_credit: i64,
     flooded: bool,
     reset: Option<u32>,
+    /// h2c only: the backend cannot send one more octet of this response because of sozu's
+    /// connection window (stream credit is there), and how many PING barriers completed in that state
+    conn_starved: bool,
+    barriers: u64,
+    conn_credit: i64,
+    stream_credit: i64,
 }
 
 #[derive(Default)]
@@ -661,6 +747,66 @@ struct Shared {
 fn parse_path(path: &str) -> Option<(u64, usize, usize)> {
     let mut it = path.trim_start_matches("/t/").split('/');
     Some((it.next()?.parse().ok()?, it.next()?.parse().ok()?, it.next()?.parse().ok()?))
+}
+
+
+fn parse_down_pad(path: &str) -> Option<(usize, u8)> {
+    let (_, rest) = path.split_once("/dp/")?;
+    let (content, pad) = rest.split_once('/')?;
+    Some((content.parse().ok()?, pad.parse().ok()?))
+}
+
+/// Logical "sozu had its chance" barrier, on the wire only: two PING round trips, one after the
+/// other. sozu answers a PING from its write path, after the reads that preceded it and after the
+/// control frames it had queued (WINDOW_UPDATE included) on the earlier pass; once the second
+/// answer is here, every WINDOW_UPDATE sozu decided to send before the first PING has arrived.
+#[derive(Default)]
+struct Barrier {
+    token: u64,
+    acked: u32,
+    active: bool,
+    completed: u64,
+    /// no new barrier before this instant (keeps a long starvation from becoming a PING flood)
+    rest_until: Option<Instant>,
+}
+
+impl Barrier {
+    fn token_bytes(&self) -> [u8; 8] {
+        (0xC14_0000_0000_0000u64 | self.token).to_be_bytes()
+    }
+    /// `starving` = the sender cannot send a single octet because of the connection window and the
+    /// preconditions hold. Returns true once a full barrier went by while it stayed true.
+    fn step<S: Transport>(&mut self, c: &mut H2Conn<S>, starving: bool) -> Result<bool, H2Error> {
+        if !starving {
+            self.active = false;
+            self.acked = 0;
+            return Ok(false);
+        }
+        if !self.active {
+            if self.rest_until.is_some_and(|t| Instant::now() < t) {
+                return Ok(false);
+            }
+            self.active = true;
+            self.acked = 0;
+            self.token += 1;
+            c.send_ping(false, self.token_bytes())?;
+            return Ok(false);
+        }
+        Ok(self.acked >= 2)
+    }
+    fn on_ping_ack<S: Transport>(&mut self, c: &mut H2Conn<S>, data: [u8; 8]) -> Result<(), H2Error> {
+        if self.active && data == self.token_bytes() {
+            self.acked += 1;
+            if self.acked < 2 {
+                self.token += 1;
+                c.send_ping(false, self.token_bytes())?;
+            } else {
+                self.completed += 1;
+                self.rest_until = Some(Instant::now() + Duration::from_millis(2));
+            }
+        }
+        Ok(())
+    }
 }
 
 fn trace_around<S: Transport>(c: &H2Conn<S>, frame_index: usize) -> Vec<String> {
@@ -828,6 +974,7 @@ struct BackX {
     resp_started: bool,
     sent: usize,
     done: bool,
+    down_pad: Option<(usize, u8)>,
 }
 
 fn h2c_backend(addr: SocketAddr, plans: Vec<PeerPlan>, shared: Arc<Shared>) -> std::io::Result<BackendServer> {
@@ -887,12 +1034,15 @@ fn merge_stats(into: &mut SideStats, s: &SideStats) {
 fn h2c_serve(c: &mut H2Conn<std::net::TcpStream>, rx: &mut Receiver, conn: usize, shared: &Shared) -> Result<(), H2Error> {
     c.handshake_server(&rx.plan.settings)?;
     let mut xs: BTreeMap<u32, BackX> = BTreeMap::new();
+    let mut barrier = Barrier::default();
     loop {
         if shared.stop.load(Ordering::SeqCst) {
             return Ok(());
         }
         // responses, obeying sozu's windows, round robin
         let mut could_send = false;
+        let mut starving_sid: Option<u32> = None;
+        let mut starving_credit = (0i64, 0i64);
         let sids: Vec<u32> = xs.iter().filter(|(_, x)| x.up_done && !x.done).map(|(s, _)| *s).collect();
         for sid in sids {
             let x = xs.get_mut(&sid).expect("present");
@@ -905,25 +1055,47 @@ fn h2c_serve(c: &mut H2Conn<std::net::TcpStream>, rx: &mut Receiver, conn: usize
                     continue;
                 }
             }
-            let credit = c.send_credit(sid);
+            let (frame_content, pad) = match x.down_pad {
+                Some((content, pad)) => (content.max(1), Some(pad)),
+                None => (32_768, None),
+            };
+            let overhead = pad.map(|p| p as i64 + 1).unwrap_or(0);
+            let credit = c.send_credit(sid) - overhead;
             if x.down == 0 {
                 c.send_data_avail(sid, &[], true, None)?;
                 x.done = true;
             } else if credit > 0 {
-                let n = (x.down - x.sent).min(32_768).min(credit as usize);
+                let n = (x.down - x.sent).min(frame_content).min(credit as usize);
                 let chunk = keystream(x.id | DOWN_ID, x.sent as u64, n);
-                let sent = c.send_data_avail(sid, &chunk, x.sent + n == x.down, None)?;
+                let sent = c.send_data_avail(sid, &chunk, x.sent + n == x.down, pad)?;
                 x.sent += sent;
+                if sent > 0 && pad.is_some() {
+                    *rx.stats.adv.entry("padded_download_frames".to_owned()).or_insert(0) += 1;
+                    *rx.stats.adv.entry("padding_octets_sent".to_owned()).or_insert(0) += overhead as u64;
+                }
                 if x.sent == x.down {
                     x.done = true;
                 }
                 could_send |= sent > 0 && !x.done;
+            } else if x.sent < x.down {
+                // no credit for even one octet: is it the connection window alone?
+                let stream_credit = c.streams.get(&sid).map(|s| s.send_window).unwrap_or(0) - overhead;
+                if c.conn_send_window - overhead <= 0 && stream_credit > 0 {
+                    starving_sid = Some(sid);
+                    starving_credit = (c.conn_send_window, stream_credit + overhead);
+                }
             }
+        }
+        // connection-window starvation of the backend as a sender: keep running PING barriers while
+        // it lasts (the client thread judges, it knows what reached the client)
+        if barrier.step(c, starving_sid.is_some())? {
+            barrier.active = false; // start the next one on the next turn
         }
         let mut wait = if could_send { Duration::ZERO } else { Duration::from_millis(2) };
         while let Some(ev) = c.poll(wait)? {
             wait = Duration::ZERO;
             match ev {
+                Event::Ping { ack: true, data } => barrier.on_ping_ack(c, data)?,
                 Event::Headers { stream, headers, end_stream } => {
                     if let Some(x) = xs.get_mut(&stream) {
                         if end_stream {
@@ -935,7 +1107,11 @@ fn h2c_serve(c: &mut H2Conn<std::net::TcpStream>, rx: &mut Receiver, conn: usize
                             shared.corrupt.lock().unwrap().push(format!("body_corrupted|h2c backend: request with unexpected path {path:?}"));
                             continue;
                         };
-                        xs.insert(stream, BackX { id, up, down, got: 0, up_done: end_stream, resp_started: false, sent: 0, done: false });
+                        let down_pad = parse_down_pad(&path);
+                        if down_pad.is_some() {
+                            *rx.stats.adv.entry("padded_download_streams".to_owned()).or_insert(0) += 1;
+                        }
+                        xs.insert(stream, BackX { id, up, down, got: 0, up_done: end_stream, resp_started: false, sent: 0, done: false, down_pad });
                         shared.prog.lock().unwrap().insert(id, BackProg { conn, ..Default::default() });
                     }
                 }
@@ -994,6 +1170,14 @@ fn h2c_serve(c: &mut H2Conn<std::net::TcpStream>, rx: &mut Receiver, conn: usize
                     p.conn_window = c.conn_recv_window;
                     p.send_credit = c.send_credit(*sid);
                     p.flooded = rx.flooded;
+                    p.conn_starved = starving_sid == Some(*sid);
+                    p.barriers = barrier.completed;
+                    if p.conn_starved {
+                        (p.conn_credit, p.stream_credit) = starving_credit;
+                    } else {
+                        p.conn_credit = c.conn_send_window;
+                        p.stream_credit = c.streams.get(sid).map(|s| s.send_window).unwrap_or(0);
+                    }
                 }
             }
         }
@@ -1036,6 +1220,11 @@ struct ConnOutcome {
     harness_error: Option<String>,
     trace_tail: Vec<String>,
     own_window_waits: u64,
+    padded_frames: u64,
+    padding_octets: u64,
+    barriers_run: u64,
+    /// (side, detail): connection-window starvation decided by the PING barrier
+    starved: Option<(String, String)>,
     after_corruption: u64,
     pending_header: Option<String>,
     uploaded: u64,
@@ -1334,6 +1523,10 @@ fn client_loop(
     let started = Instant::now();
     let mut last_progress = Instant::now();
     let mut next_open = 0usize;
+    let mut barrier = Barrier::default();
+    // backend-side starvation: barriers the backend had completed when this client first held
+    // everything the backend had sent
+    let mut back_starved_since: BTreeMap<u64, u64> = BTreeMap::new();
     loop {
         // open streams
         let inflight = xs.iter().filter(|x| x.sid != 0 && !x.done && x.failed.is_none()).count();
@@ -1342,7 +1535,10 @@ fn client_loop(
         while room > 0 && next_open < xs.len() {
             let xp = &plan.xfers[next_open];
             let sid = c.next_stream_id();
-            let path = format!("/t/{}/{}/{}", xp.id, xp.up, xp.down);
+            let mut path = format!("/t/{}/{}/{}", xp.id, xp.up, xp.down);
+            if let Some((content, pad)) = xp.down_pad {
+                path.push_str(&format!("/dp/{content}/{pad}"));
+            }
             let cl = xp.up.to_string();
             let mut extra: Vec<(&str, &str)> = vec![("x-c14", "1")];
             if xp.content_length && xp.up > 0 {
@@ -1370,12 +1566,16 @@ fn client_loop(
             }
             // tiny DATA frames only for small bodies: a burst of > 10 000 frames trips sozu's event-loop
             // budget (MAX_LOOP_ITERATIONS), a defence that has nothing to do with the peer's limits
-            let quantum = if x.up > 4096 { plan.up_quantum.max(16_384) } else { plan.up_quantum };
+            let quantum = if plan.padded_class || x.up <= 4096 { plan.up_quantum } else { plan.up_quantum.max(16_384) };
             let n = (x.up - x.up_sent).min(quantum).min(credit as usize).min(1 << 18);
             let chunk = keystream(x.id, x.up_sent as u64, n);
             let sent = c.send_data_avail(x.sid, &chunk, x.up_sent + n == x.up, pad)?;
             x.up_sent += sent;
             out.uploaded += sent as u64;
+            if sent > 0 && plan.padded_class {
+                out.padded_frames += 1;
+                out.padding_octets += overhead as u64;
+            }
             if sent > 0 {
                 last_progress = Instant::now();
                 could_send |= x.up_sent < x.up;
@@ -1452,6 +1652,7 @@ fn client_loop(
                     }
                 }
                 Event::Settings { ack: true, .. } => rx.on_settings_ack(c),
+                Event::Ping { ack: true, data } => barrier.on_ping_ack(c, data)?,
                 Event::Closed => {
                     for x in xs.iter_mut().filter(|x| !x.done && x.failed.is_none()) {
                         x.failed = Some(format!("connection closed by sozu ({:?})", c.close_kind));
@@ -1481,6 +1682,71 @@ fn client_loop(
             if !frames.is_empty() {
                 c.send_frames(&frames)?;
             }
+        }
+        // ---- sozu's own connection window must not starve a compliant sender -------------------
+        // front: an upload cannot send one more octet because of the connection window alone, and
+        // every octet sent so far (on all uploads of the connection) has reached the backend
+        {
+            let mut starving: Option<String> = None;
+            let uploading: Vec<usize> = (0..xs.len()).filter(|i| xs[*i].sid != 0 && xs[*i].up_sent < xs[*i].up && xs[*i].failed.is_none() && !xs[*i].done).collect();
+            if !uploading.is_empty() {
+                let blocked_by_conn = uploading.iter().all(|i| {
+                    let overhead = plan.xfers[*i].pad.map(|p| p as i64 + 1).unwrap_or(0);
+                    let stream_w = c.streams.get(&xs[*i].sid).map(|s| s.send_window).unwrap_or(0);
+                    c.conn_send_window - overhead <= 0 && stream_w - overhead > 0
+                });
+                if blocked_by_conn {
+                    let prog = shared.prog.lock().unwrap();
+                    let all_consumed = xs.iter().filter(|x| x.sid != 0 && x.up > 0).all(|x| prog.get(&x.id).is_some_and(|b| b.up_recv == x.up_sent as u64));
+                    if all_consumed {
+                        let x = &xs[uploading[0]];
+                        starving = Some(format!(
+                            "upload of transfer {} (stream {}): {} of {} octets sent and all of them received by the backend; connection credit left {} (a frame needs {} + 1), stream credit {}; {} flow-controlled octets sent on the connection so far",
+                            x.id, x.sid, x.up_sent, x.up, c.conn_send_window,
+                            plan.xfers[uploading[0]].pad.map(|p| p as i64 + 1).unwrap_or(0),
+                            c.streams.get(&x.sid).map(|s| s.send_window).unwrap_or(0),
+                            c.trace.iter().filter(|t| !t.inbound && t.frame.typ == h2::FT_DATA).map(|t| t.frame.len as u64).sum::<u64>()
+                        ));
+                    }
+                }
+            }
+            let was_active = barrier.active;
+            if barrier.step(c, starving.is_some())? {
+                out.barriers_run += 1;
+                out.starved = Some(("front".to_owned(), starving.unwrap_or_default()));
+                return Ok(());
+            }
+            if !was_active && barrier.active {
+                out.barriers_run += 1;
+            }
+        }
+        // back: the h2c backend reports that it is starved of connection credit by sozu; it counts
+        // once this client holds every octet the backend sent and a whole barrier went by after that
+        {
+            let prog = shared.prog.lock().unwrap();
+            for x in xs.iter().filter(|x| x.sid != 0 && !x.done && x.failed.is_none()) {
+                let Some(b) = prog.get(&x.id) else { continue };
+                // the connection window is shared: every octet the backend sent on that backend
+                // connection, on any stream, must have reached this client
+                let all_delivered = xs.iter().filter(|y| y.sid != 0).all(|y| prog.get(&y.id).is_none_or(|bb| bb.conn != b.conn || bb.down_sent == y.down_recv as u64));
+                if b.conn_starved && all_delivered && b.down_sent < x.down as u64 {
+                    let since = *back_starved_since.entry(x.id).or_insert(b.barriers);
+                    if b.barriers >= since + 2 {
+                        out.starved = Some((
+                            "back".to_owned(),
+                            format!(
+                                "download of transfer {}: the backend sent {} of {} octets and everything it sent on this connection reached the client; the backend's connection credit from sozu is {} (stream credit {}), not enough for one more frame over {} PING barriers",
+                                x.id, b.down_sent, x.down, b.conn_credit, b.stream_credit, b.barriers - since
+                            ),
+                        ));
+                    }
+                } else {
+                    back_starved_since.remove(&x.id);
+                }
+            }
+        }
+        if out.starved.is_some() {
+            return Ok(());
         }
         if next_open == xs.len() && xs.iter().all(|x| x.done || x.failed.is_some()) {
             return Ok(());
@@ -1528,7 +1794,10 @@ struct Stuck {
 
 fn fingerprint(plan: &CellPlan, cp: &ConnPlan) -> u64 {
     let bucket = |n: usize| -> usize { if n == 0 { 0 } else { 64 - (n as u64).leading_zeros() as usize } };
-    let mut s = format!("{}{}|{:?}|{}|{}|", cp.front_h1, plan.back_h2c, cp.front.settings, cp.front.grant.name(), cp.front.changes.len());
+    let mut s = format!("{}{}{}|{:?}|{}|{}|", cp.front_h1, cp.padded_class, plan.back_h2c, cp.front.settings, cp.front.grant.name(), cp.front.changes.len());
+    if cp.padded_class {
+        s.push_str(&format!("{}|{:?}|{:?}|", cp.up_quantum, cp.xfers[0].pad, cp.xfers[0].down_pad));
+    }
     s.push_str(&format!("{:?}|{}|", plan.back.iter().map(|b| (b.settings.clone(), b.grant.name())).collect::<Vec<_>>(), bucket(cp.xfers.len())));
     for x in &cp.xfers {
         s.push_str(&format!("{}.{},", bucket(x.up), bucket(x.down)));
@@ -1655,6 +1924,31 @@ fn run_cell(ctx: &Ctx, force: Force, seed: u64, case: u64, rep: &mut Report, sol
         merge_stats(&mut front_stats, &o.stats);
         rep.obs("front.own_window_waits", o.own_window_waits);
         rep.obs("front.bytes_uploaded_under_sozu_windows", o.uploaded);
+        rep.obs("connection_window_starvation_barriers_started", o.barriers_run);
+        if cp.padded_class && o.harness_error.is_none() {
+            let window = plan.own_conn_window.unwrap_or(1 << 20) as u64;
+            if cp.xfers.iter().any(|x| x.pad.is_some()) {
+                rep.obs("front.padded_upload_connections", 1);
+                rep.obs("front.padded_upload_frames", o.padded_frames);
+                rep.obs("front.padding_octets_sent", o.padding_octets);
+                rep.obs_max("front.padding_over_own_connection_window_x10", o.padding_octets * 10 / window);
+                if o.padding_octets >= 2 * window {
+                    rep.obs("front.padded_upload_connections_with_padding_over_twice_the_window", 1);
+                }
+            }
+            if cp.xfers.iter().any(|x| x.down_pad.is_some()) {
+                rep.obs("back.padded_download_connections", 1);
+                let got: u64 = o.xfers.iter().filter(|x| x.done && !x.exempt).map(|x| x.down_recv as u64).sum();
+                let (content, pad) = cp.xfers.iter().find_map(|x| x.down_pad).unwrap_or((1, 0));
+                // padding the backend had to send for what arrived (one pad length octet + padding per frame)
+                let padding = got.div_ceil(content.max(1) as u64) * (pad as u64 + 1);
+                rep.obs("back.padding_octets_received_by_sozu", padding);
+                rep.obs_max("back.padding_over_own_connection_window_x10", padding * 10 / window);
+                if padding >= 2 * window {
+                    rep.obs("back.padded_download_connections_with_padding_over_twice_the_window", 1);
+                }
+            }
+        }
         let base = json!({"case": case, "seed": seed, "generator": force.json(), "conn": ci, "plan": plan_json(&plan)});
         let with = |extra: Value| -> Value {
             let mut b = base.clone();
@@ -1675,6 +1969,15 @@ fn run_cell(ctx: &Ctx, force: Force, seed: u64, case: u64, rep: &mut Report, sol
                 &format!("h2limits/{kind}/front"),
                 &format!("towards the H2 client: {detail}"),
                 with(json!({"expected": "every frame within the limits the client advertised", "observed": detail, "frame_trace": trace})),
+            );
+        }
+        if let Some((side, detail)) = &o.starved {
+            rep.violation(
+                &format!("h2limits/own_connection_window_not_replenished/{side}"),
+                &format!("sozu's own connection-level receive window starves a compliant sender: {detail}"),
+                with(json!({"expected": "after sozu consumed everything it was sent, a WINDOW_UPDATE on stream 0 gives the flow-controlled octets back (pad length octet and padding included, RFC 9113 6.1 / 6.9.1) before two PING round trips complete",
+                    "observed": detail, "frame_trace": o.trace_tail,
+                    "backend_view": format!("{:?}", shared.prog.lock().unwrap().iter().filter(|(_, b)| !b.down_done || !b.up_done).take(4).collect::<Vec<_>>())})),
             );
         }
         for d in &o.other {
@@ -2085,6 +2388,7 @@ pub fn run(ctx: &Ctx) -> Report {
     rep.assume("sozu's documented reapers/flood guards are configured out of the way (h2_stream_idle_timeout_seconds=3600, per-window flood thresholds raised, front/back timeouts 600 s)");
     rep.assume("a limit this peer changed counts from the SETTINGS ACK on (RFC 9113 6.5.3); until then the more permissive of old and new value is accepted");
     rep.assume("a stalled or aborted transfer is a violation only when it happens again in an isolated re-run of the same cell; at most 3 (thorough: 20) cells are re-run, further first sightings of a class confirmed that way are counted, not judged");
+    rep.assume("own-window starvation is decided on the wire, not on the clock: the sender is blocked by the connection window alone, everything it sent has been received by the far side (backend for uploads, client for downloads), and two PING round trips completed without a WINDOW_UPDATE on stream 0");
     rep.assume("transfers answered with a non-200 status, and transfers towards a backend that advertises MAX_CONCURRENT_STREAMS=0, are exempt from the progress oracle");
     lab::raise_fd_limit();
     if ctx.opt("repro") == Some("zero") {
@@ -2129,6 +2433,12 @@ pub fn run(ctx: &Ctx) -> Report {
         "back.policy.drip1",
         "front.policy.exact_fit",
         "front.uploads_larger_than_sozu_initial_window_completed",
+        "front.padded_upload_connections",
+        "front.padding_octets_sent",
+        "front.padded_upload_connections_with_padding_over_twice_the_window",
+        "back.padded_download_connections",
+        "back.padding_octets_received_by_sozu",
+        "back.padded_download_connections_with_padding_over_twice_the_window",
         "transfers_completed",
     ] {
         rep.require(k);
